@@ -251,6 +251,12 @@ int fb_coerce_scalar_type(fb_parser_t *P, fb_symbol_t *sym, fb_scalar_type_t st,
             value->type = vt_float;
             return 0;
         case vt_float:
+            /* Values at or beyond FLT_MAX + 1/2 ulp would become infinity in the generated code. */
+            if (value->f >= 0x1.ffffffp+127 || value->f <= -0x1.ffffffp+127) {
+                error_sym(P, sym, "32-bit float overflow");
+                value->type = vt_invalid;
+                return -1;
+            }
             return 0;
         default:
             error_sym(P, sym, "32-bit float type only accepts integer and float values");
